@@ -30,6 +30,7 @@ import (
 	"encoding/json"
 	"fmt"
 	"os"
+	"path/filepath"
 	"runtime"
 	"sort"
 	"strconv"
@@ -38,6 +39,7 @@ import (
 	"sync/atomic"
 	"time"
 
+	"github.com/krotik/ecal/cli/tool"
 	"github.com/krotik/ecal/config"
 	"github.com/krotik/ecal/interpreter"
 	"github.com/krotik/ecal/parser"
@@ -54,6 +56,7 @@ type recDebugger struct {
 	traces    map[uint64][]string
 	litVisits map[int]int // debugger visits of literal nodes per line
 	litEvals  map[int]int // evaluations of literal nodes per line (noted by c15LitRuntime)
+	watched   map[*parser.ASTNode]bool
 	off       bool        // life-cycle cases: the debugger is detached at the moment
 }
 
@@ -83,12 +86,25 @@ func (r *c15LitRuntime) Eval(vs parser.Scope, is map[string]interface{}, tid uin
 	return r.Runtime.Eval(vs, is, tid)
 }
 
+// c15WrapLiterals wraps the runtimes of the WATCHED nodes: literal nodes and every statement of a
+// statement list (children of a `statements` node with a token: assignments, calls, return / break /
+// continue, loops, …; nobody type-asserts these runtimes). For each of them an evaluation must be
+// announced to the debugger as a visit of that very node.
 func c15WrapLiterals(n *parser.ASTNode, rec *recDebugger) {
-	if c15IsLiteral(n) {
-		n.Runtime = &c15LitRuntime{n.Runtime, c15Pos(n), rec}
+	c15WrapWatched(n, rec, true)
+}
+
+func c15WrapWatched(n *parser.ASTNode, rec *recDebugger, isStatement bool) {
+	if n.Token != nil && (c15IsLiteral(n) || isStatement) && n.Name != parser.NodeSTATEMENTS {
+		if _, done := n.Runtime.(*c15LitRuntime); !done {
+			n.Runtime = &c15LitRuntime{n.Runtime, c15Pos(n), rec}
+			rec.mu.Lock()
+			rec.watched[n] = true
+			rec.mu.Unlock()
+		}
 	}
 	for _, c := range n.Children {
-		c15WrapLiterals(c, rec)
+		c15WrapWatched(c, rec, n.Name == parser.NodeSTATEMENTS)
 	}
 }
 
@@ -108,7 +124,7 @@ func (d *recDebugger) litAgree() bool {
 }
 
 func newRecDebugger(d util.ECALDebugger) *recDebugger {
-	return &recDebugger{ECALDebugger: d, traces: map[uint64][]string{}, litVisits: map[int]int{}, litEvals: map[int]int{}}
+	return &recDebugger{ECALDebugger: d, traces: map[uint64][]string{}, litVisits: map[int]int{}, litEvals: map[int]int{}, watched: map[*parser.ASTNode]bool{}}
 }
 
 func (d *recDebugger) note(tid uint64, s string) {
@@ -134,11 +150,11 @@ func c15Pos(node *parser.ASTNode) int {
 func (d *recDebugger) VisitState(node *parser.ASTNode, vs parser.Scope, tid uint64) util.TraceableRuntimeError {
 	if node.Token != nil {
 		d.note(tid, "v"+strconv.Itoa(c15Pos(node)))
-		if c15IsLiteral(node) {
-			d.mu.Lock()
+		d.mu.Lock()
+		if d.watched[node] {
 			d.litVisits[c15Pos(node)]++
-			d.mu.Unlock()
 		}
+		d.mu.Unlock()
 	}
 	return d.ECALDebugger.VisitState(node, vs, tid)
 }
@@ -400,6 +416,7 @@ type c15Run struct {
 	timing  string
 	seed    uint64
 	payload string
+	cliLines []string // non-nil: src is the entry file of a cli/tool CLIInterpreter, these are console lines
 	life    string // life-cycle mode (L cases): src = library, mainSrc = main program
 	mainSrc string
 	workers int // > 0: sink program, the processor runs with that many pool workers
@@ -407,8 +424,9 @@ type c15Run struct {
 
 const c15Source = "t"
 
-// positions are numbers: <source index>*1000 + line; sources: 0 = "t", 1 = "lib", 2 = "main"
-var c15Sources = []string{c15Source, "lib", "main"}
+// positions are numbers: <source index>*1000 + line; sources: 0 = "t", 1 = "lib", 2 = "main",
+// 3 = the entry file of the command line interpreter (set per case), 4 = its console input
+var c15Sources = []string{c15Source, "lib", "main", "entry.ecal", "console input"}
 
 func c15SrcOffset(name string) int {
 	for i, s := range c15Sources {
@@ -427,6 +445,18 @@ func c15ApplyOp(dbg util.ECALDebugger, op string) {
 	}
 	num, _ := strconv.Atoi(n)
 	src, line := c15Sources[(num/1000)%len(c15Sources)], strconv.Itoa(num%1000)
+	if strings.Contains(src, " ") {
+		// "console input" cannot be named in a debug command (fields are split at spaces): use the API
+		switch op[0] {
+		case 's':
+			dbg.SetBreakPoint(src, num%1000)
+		case 'd':
+			dbg.DisableBreakPoint(src, num%1000)
+		case 'r':
+			dbg.RemoveBreakPoint(src, num%1000)
+		}
+		return
+	}
 	switch op[0] {
 	case 's':
 		dbg.HandleInput("break " + src + ":" + line)
@@ -451,7 +481,15 @@ func c15Debugged(c *c15Run, kill bool) (threads []*c15Thread, lg *memLog, rec *r
 		config.Config[config.WorkerCount] = c.workers
 		defer func() { config.Config[config.WorkerCount] = 4 }()
 	}
-	erp := interpreter.NewECALRuntimeProvider("t", nil, lg)
+	var erp *interpreter.ECALRuntimeProvider
+	var ci *tool.CLIInterpreter
+	if c.cliLines != nil {
+		// the command line interpreter (cli/tool/interpret.go) owns provider and global scope
+		ci = c15NewCLI(c.src, lg)
+		erp = ci.RuntimeProvider
+	} else {
+		erp = interpreter.NewECALRuntimeProvider("t", nil, lg)
+	}
 	defer erp.Cron.Stop()
 	sched := &c15Sched{mode: c.timing, rng: NewRand(c.seed), isTid: map[interface{}]uint64{},
 		events: map[uint64][]string{}, parked: map[uint64]chan struct{}{}}
@@ -463,6 +501,9 @@ func c15Debugged(c *c15Run, kill bool) (threads []*c15Thread, lg *memLog, rec *r
 	defer sched.flush(c.payload)
 
 	gvs := newGlobalScope()
+	if ci != nil {
+		gvs = ci.GlobalVS
+	}
 	dbg := interpreter.NewECALDebugger(gvs)
 	rec = newRecDebugger(dbg)
 	if c.life == "" {
@@ -477,7 +518,7 @@ func c15Debugged(c *c15Run, kill bool) (threads []*c15Thread, lg *memLog, rec *r
 	}
 	var ast *parser.ASTNode
 	var err error
-	if c.life == "" {
+	if c.life == "" && ci == nil {
 		ast, err = parser.ParseWithRuntime(c15Source, c.src, erp)
 		if err == nil {
 			err = ast.Runtime.Validate()
@@ -511,6 +552,8 @@ func c15Debugged(c *c15Run, kill bool) (threads []*c15Thread, lg *memLog, rec *r
 					func() { erp.Debugger = rec; rec.setOn(true) },
 					func() { erp.Debugger = nil; rec.setOn(false) },
 					func(a *parser.ASTNode) { c15WrapLiterals(a, rec) })
+			} else if ci != nil {
+				t.res = c15CLISession(ci, c.cliLines, t.tid)
 			} else if c.workers > 0 {
 				// addEvent starts the processor (rules can only be added while it is stopped)
 				t.res, t.err = ast.Runtime.Eval(t.vs, make(map[string]interface{}), t.tid)
@@ -929,6 +972,98 @@ func c15RunZ(f []string, payload string) string {
 	}
 }
 
+// ---------------------------------------------------------------- command line interpreter
+
+type c15Term struct{ sb strings.Builder }
+
+func (t *c15Term) WriteString(s string) { t.sb.WriteString(s) }
+
+// c15NewCLI sets up a cli/tool CLIInterpreter whose entry file holds src.
+func c15NewCLI(src string, lg util.Logger) *tool.CLIInterpreter {
+	// the same path in every session of this process (it appears in error texts)
+	dir, _ := filepath.Abs(fmt.Sprintf("c15cli-%d", os.Getpid()))
+	os.MkdirAll(dir, 0755)
+	entry := filepath.Join(dir, "entry.ecal")
+	os.WriteFile(entry, []byte(src), 0644)
+	c15Sources[3] = entry
+	ci := tool.NewCLIInterpreter()
+	ci.Dir = &dir
+	ci.EntryFile = entry
+	ci.LoadPlugins = false
+	if err := ci.CreateRuntimeProvider("console"); err != nil {
+		panic(err)
+	}
+	ci.RuntimeProvider.Logger = lg
+	return ci
+}
+
+// c15CLISession: load the entry file, then feed the console lines (what `ecal run`/console does
+// per line: parse as "console input", validate, evaluate, report the thread as finished).
+func c15CLISession(ci *tool.CLIInterpreter, lines []string, tid uint64) string {
+	defer os.RemoveAll(*ci.Dir)
+	var out []string
+	if err := ci.LoadInitialFile(tid); err != nil {
+		out = append(out, "load: "+err.Error())
+	}
+	for _, l := range lines {
+		term := &c15Term{}
+		ci.HandleInput(term, l, tid)
+		out = append(out, term.sb.String())
+	}
+	ci.RuntimeProvider.Processor.Finish()
+	return strings.Join(out, "|")
+}
+
+// c15CLIPlain: reference outcome without debugger and the visit trace (recording wrapper).
+func c15CLIPlain(src string, lines []string) (string, []string, []string) {
+	lg := &memLog{}
+	ci := c15NewCLI(src, lg)
+	defer ci.RuntimeProvider.Cron.Stop()
+	res := c15CLISession(ci, lines, ci.RuntimeProvider.NewThreadID())
+	out := c15Outcome(res, nil, ci.GlobalVS)
+	logs := append([]string(nil), lg.lines...)
+	ci2 := c15NewCLI(src, &memLog{})
+	defer ci2.RuntimeProvider.Cron.Stop()
+	dbg := interpreter.NewECALDebugger(ci2.GlobalVS)
+	dbg.BreakOnError(false)
+	rec := newRecDebugger(dbg)
+	ci2.RuntimeProvider.Debugger = rec
+	tid := ci2.RuntimeProvider.NewThreadID()
+	c15CLISession(ci2, lines, tid)
+	return out, logs, rec.trace(tid)
+}
+
+func c15RunI(f []string, payload string) string {
+	var lines []string
+	for _, h := range c15List(f[5], ",") {
+		lines = append(lines, unhx(h))
+	}
+	if lines == nil {
+		lines = []string{}
+	}
+	c := &c15Run{src: unhx(f[4]), cliLines: lines, n: 1, bos: f[0][0] == '1', boe: f[0][1] == '1', bpops: c15List(f[1], ","),
+		script: c15List(f[2], ","), timing: "poll", seed: 1, payload: payload}
+	plain, plainLog, _ := c15CLIPlain(c.src, lines)
+	threads, lg, rec, hang := c15Debugged(c, false)
+	t := threads[0]
+	same, vis := 1, 1
+	if !hang && (!t.normal || c15Outcome(t.res, t.err, t.vs) != plain || strings.Join(plainLog, "\n") != strings.Join(lg.lines, "\n")) {
+		same = 0
+	}
+	if !hang && !rec.litAgree() {
+		vis = 0
+	}
+	if os.Getenv("C15_DEBUG") != "" {
+		fmt.Fprintln(os.Stderr, "plain:", plain, plainLog, "\ndebug:", c15Outcome(t.res, t.err, t.vs), lg.lines)
+	}
+	r := fmt.Sprintf("same=%d vis=%d susp=%s", same, vis, c15Lines(t.susp))
+	if hang {
+		r = "HANG-suspended-thread-not-released " + r
+	}
+	CountRun("I")
+	return r
+}
+
 // c15SinkProgram: a sink with the given body lines, `events` events of its kind.
 func c15SinkProgram(body []string, events int) string {
 	lines := []string{"func h(a) {", "    return a * 2", "}", "sink s1", "    kindmatch [ \"ev.a\" ],", "    {"}
@@ -1011,7 +1146,7 @@ func c15RunS(f []string, payload string) string {
 	}
 	CountRun("S")
 	r := fmt.Sprintf("same=%d susp=%d", same, total)
-	if f[3] != "-" {
+	if f[3] != "-" && workers != 1 {
 		r = fmt.Sprintf("same=%d susp=any", same)
 	}
 	if hang {
@@ -1425,9 +1560,8 @@ func c15ProgramParts(r *Rand) (string, string) {
 	return strings.Join(libLines, "\n"), strings.Join(p.lines, "\n")
 }
 
-// c15PhantomFree: with breakOnError the code marks a thread "not running" without waiting
-// when an error return meets an interrogation state that already carries an error; polling
-// cannot observe that reliably, so such programs run with breakOnError off.
+// c15PhantomFree (no longer used to restrict cases): an error return meeting an interrogation state
+// that already carries an error used to mark the thread "not running" without waiting.
 func c15PhantomFree(trace []string) bool {
 	pending := false
 	for _, e := range trace {
@@ -1599,7 +1733,7 @@ func init() {
 						if n == 1 && r.Intn(4) == 0 {
 							bos = "1"
 						}
-						if r.Intn(3) == 0 && c15PhantomFree(trace) {
+						if r.Intn(3) == 0 {
 							boe = "1"
 						}
 						timing := []string{"poll", "window", "random", "random"}[r.Intn(4)]
@@ -1616,7 +1750,7 @@ func init() {
 				// StopThreads
 				g.Count("K")
 				kn := strconv.Itoa(1 + r.Intn(4))
-				if r.Intn(3) == 0 && c15PhantomFree(trace) {
+				if r.Intn(3) == 0 {
 					kn += "e" // StopThreads with breakOnError on
 					g.Count("K.boe")
 				}
@@ -1629,6 +1763,65 @@ func init() {
 					g.Emit(fmt.Sprintf("D 1 00 %s %s %s 1 %s %s", d[1], d[2], timing, c15TraceStr(trace), hx(d[0])))
 				}
 			}
+			// the command line interpreter (cli/tool/interpret.go): entry file, then console lines on the
+			// same thread; each line is its own parse unit "console input" and ends with
+			// RecordThreadFinished
+			nCli := 12
+			if g.Thorough() {
+				nCli = 150
+			}
+			for i := 0; i < nCli; i++ {
+				lib, main := c15ProgramParts(g.R)
+				if lib == "" {
+					lib = "libv := 1"
+				}
+				mainLines := strings.Split(main, "\n")
+				// console lines must be complete statements: take the one-line ones
+				var console []string
+				depth := 0
+				for _, l := range mainLines {
+					opens, closes := strings.Count(l, "{")+strings.Count(l, "["), strings.Count(l, "}")+strings.Count(l, "]")
+					if depth == 0 && opens == closes && !strings.HasPrefix(strings.TrimSpace(l), "}") {
+						console = append(console, strings.TrimSpace(l))
+					}
+					depth += opens - closes
+				}
+				if len(console) > 6 {
+					console = console[:6]
+				}
+				_, _, trace := c15CLIPlain(lib, console)
+				if len(trace) > 1200 {
+					continue
+				}
+				var vis []int
+				seen := map[int]bool{}
+				for _, e := range trace {
+					if e[0] == 'v' {
+						if l, _ := strconv.Atoi(e[1:]); !seen[l] {
+							seen[l] = true
+							vis = append(vis, l)
+						}
+					}
+				}
+				ops := []string{"s4001"}
+				for k := 0; k < 1+g.R.Intn(3) && len(vis) > 0; k++ {
+					ops = append(ops, "s"+strconv.Itoa(vis[g.R.Intn(len(vis))]))
+				}
+				var hexes []string
+				for _, l := range console {
+					hexes = append(hexes, hx(l))
+				}
+				cl := "-"
+				if len(hexes) > 0 {
+					cl = strings.Join(hexes, ",")
+				}
+				boe := "0"
+				if g.R.Intn(3) == 0 {
+					boe = "1"
+				}
+				g.Count("I")
+				g.Emit(fmt.Sprintf("I 0%s %s %s %s %s %s", boe, strings.Join(ops, ","), c15Script(g.R, 1, false), c15TraceStr(trace), hx(lib), cl))
+			}
 			// sink programs on pool workers: more events than workers, break points in one-line and
 			// multi-line sink bodies (body lines start at line 7)
 			bodies := [][]string{
@@ -1636,6 +1829,13 @@ func init() {
 				{"x := event.state.n", "log(\"s\", x)"},
 				{"x := h(event.state.n)", "y := x + 1", "log(\"s\", y)"},
 				{"x := event.state.n", "if x > 2 {", "    x := h(x)", "}", "log(\"s\", x)"},
+			}
+			// a step command pending when an execution ends must not hide the break point from the
+			// worker's next execution (one worker: deterministic)
+			for _, sc := range []string{"I", "O,R,I", "U", "I,I"} {
+				bt := c15SinkBodyTrace(bodies[0])
+				g.Count("S.workers.1")
+				g.Emit(fmt.Sprintf("S 1 4 s7 %s %s %s", sc, c15TraceStr(bt), hx(c15SinkProgram(bodies[0], 4))))
 			}
 			for bi, body := range bodies {
 				bt := c15SinkBodyTrace(body)
@@ -1724,7 +1924,7 @@ func init() {
 						sc = c15Script(r, 1, false)
 					}
 					boe := "0"
-					if r.Intn(3) == 0 && c15PhantomFree(trace) {
+					if r.Intn(3) == 0 {
 						boe = "1"
 					}
 					g.Count("L." + mode)
@@ -1770,6 +1970,8 @@ func init() {
 				return c15RunZ(f[1:], payload)
 			case f[0] == "S" && len(f) == 7:
 				return c15RunS(f[1:], payload)
+			case f[0] == "I" && len(f) == 7:
+				return c15RunI(f[1:], payload)
 			}
 			return "bad-payload"
 		},
